@@ -1,6 +1,6 @@
 (* C11: the defect of the pinned tree as a witness against the old closure rules, and non-vacuity of the theorems *)
 From Coq Require Import List NArith ZArith Bool String.
-From SudachiVerif Require Import Model.Codec Proofs.CodecProofs.
+From SudachiVerif Require Import Model.Codec Proofs.CodecProofs Proofs.CodecLexSetProofs.
 From SudachiVerif Require Model.CodecCheck Model.CodecIO.   (* keeps the case-file entry points in step with the facts *)
 Import ListNotations.
 Open Scope N_scope.
@@ -34,4 +34,31 @@ Proof. intros bs [<-|[]]. vm_compute. discriminate. Qed.
 (* both call orders from mode C to mode A with the empty subset: mode A, SPLIT_A loaded *)
 Example ex_orders :
   (t_subset (set_subset 0 (set_mode ModeA (tok_create ModeC))), t_subset (set_mode ModeA (set_subset 0 (tok_create ModeC)))) = (66, 64).
+Proof. vm_compute. reflexivity. Qed.
+
+(* LexiconSet fix-ups: a word of the SECOND user dictionary whose A split refers to user word 1 (raw id 1<<28 | 1).
+   Requested {SPLIT_A} (loaded {SPLIT_A, HEAD_WORD_LENGTH} = 66): the reference comes out re-stamped to dictionary 2,
+   as after a full load ... *)
+Definition e_fu : entry := mkEntry [24220] 3 4 [] 4294967295 [] [5; 268435457] [] [] [] 6 6 2816.
+Definition lx_fu : lexicon := match write_word_info e_fu with Some b => [b] | None => [] end.
+Example ex_lexset_split_a :
+  (option_map (accessor A_a) (lexset_get lx_fu true 2 10 12 0 (normalize 64)),
+   option_map (accessor A_a) (lexset_get lx_fu true 2 10 12 0 ALL))
+  = (Some (VArr [5; 536870913]), Some (VArr [5; 536870913])).
+Proof. vm_compute. reflexivity. Qed.
+(* ... which is what one guard per flag buys: with the guards of SPLIT_A and SPLIT_B merged into
+   `subset.contains(SPLIT_A | SPLIT_B)` the same request returns the reference un-stamped (a word of dictionary 1) *)
+Definition lexset_fix_merged (dict_id subset : N) (wi : winfo) : winfo :=
+  if N.testbit subset 6 && N.testbit subset 7
+  then set_field F_b (VArr (restamp dict_id (as_arr (wi F_b)))) (set_field F_a (VArr (restamp dict_id (as_arr (wi F_a)))) wi)
+  else wi.
+Example C11_merged_split_guards_refuted :
+  option_map (fun i => accessor A_a (lexset_fix_merged 2 (normalize 64) i)) (get_word_info lx_fu true 0 (normalize 64))
+  = Some (VArr [5; 268435457]).
+Proof. vm_compute. reflexivity. Qed.
+
+(* operation sequences: collecting results never changes the tokenizer's configuration *)
+From SudachiVerif Require Import Model.CodecCheck.
+Example ex_ops :
+  check_c11_ops [2; 0] [OpSubset 0 0; OpCollect 0 0; OpSubset 0 1023; OpCollect 0 1023; OpCollect 0 1023; OpCollect 1 1023] = true.
 Proof. vm_compute. reflexivity. Qed.
